@@ -178,6 +178,27 @@ def site_languages(ctx, rule, site, sp):
         ctx.ob(rule, "%s/string-form/rejects-urls-on-other-hosts" % site, w is None,
                "%s(%r) is True although the url's host is not a %s host: text in the userinfo, port, path, query or fragment (or a look-alike host) decides the answer" % (predn, w, site),
                m.site(repo.const_node(m, sname)), witness=w, sample="L(%s, match) over U with the site's text present is inside REF_U" % sname)
+        if ctx.tier == "thorough":
+            # the same two inclusions, cell by cell of the comparison domain (spelling x userinfo x port x tail)
+            spells = {"http": "http://", "https": "https://", "rel": "//", "bare": ""}
+            users = {"none": "", "empty": "@", "user": r"[^/?#@:\s]+@", "user-pw": r"[^/?#@:\s]+:[^/?#@\s]*@"}
+            ports = {"none": "", "empty": ":", "digits": ":[0-9]+"}
+            tails = {"none": "", "path": r"/[^\s]*", "query": r"\?[^\s]*", "fragment": r"#[^\s]*"}
+            ncell = 0
+            for sk, sv in spells.items():
+                for uk, uv in users.items():
+                    for pk, pv in ports.items():
+                        for tk, tv in tails.items():
+                            if sk == "bare" and tk == "path":
+                                tv = r"/(?:[^/\s][^\s]*)?"
+                            cell = "%s/%s/%s/%s" % (sk, uk, pk, tk)
+                            Uc = A.regex(re.escape(sv) + uv + HOST + pv + tv, re.I, "fullmatch")
+                            Rc = A.regex(re.escape(sv) + uv + REF_HL + pv + tv, re.I, "fullmatch")
+                            ncell += 1
+                            w1 = A.subset(Rc, sl)
+                            ctx.ob(rule, "%s/string-form/cell/%s/accepts-site-hosts" % (site, cell), w1 is None, "%s(%r) is False although the host is a %s host" % (predn, w1, site), m.site(repo.const_node(m, sname)), witness=w1)
+                            w2 = A.subset(A.inter(A.inter(sl, Uc), NEARU), Rc)
+                            ctx.ob(rule, "%s/string-form/cell/%s/rejects-other-hosts" % (site, cell), w2 is None, "%s(%r) is True although the host is not a %s host" % (predn, w2, site), m.site(repo.const_node(m, sname)), witness=w2)
     except Unsupported as e:
         ctx.undecided(rule, "%s regexes: %s" % (site, e))
 
